@@ -264,6 +264,9 @@ type ReplayFile struct {
 	// PRNG of Params" (race reports, which kill the process before recording).
 	Decisions []int `json:"decisions"`
 	Strict    bool  `json:"strict"`
+	// WarmupOnly: the race report fired during the fixed warm-up operation list
+	// every process executes first (replay = run the warm-up).
+	WarmupOnly bool `json:"warmup_only,omitempty"`
 	Minimised struct {
 		From int `json:"decisions_before"`
 		To   int `json:"non_default_decisions_after"`
